@@ -149,7 +149,10 @@ func (s *SourceSplitter) Close() error {
 
 // Checkpoint returns a snapshot of the splitter's state for checkpointing.
 func (s *SourceSplitter) Checkpoint() []byte {
-	splits := s.splitTracker.AssignedSplits()
+	// Every tracked shard is saved, not only the assigned ones. A shard that
+	// waits for its parent can have an ID below LastAssignedSplitID, so it
+	// would not be listed again when the splitter is restored.
+	splits := s.splitTracker.KnownSplits()
 	pbShards := make([]*kinesispb.SourceSplitterShard, len(splits))
 	for i, shard := range splits {
 		pbShards[i] = shard.toProto()
